@@ -10,20 +10,51 @@ package pypi
 //@   ensures result == 0 ==> a == b                       [C01]
 //@   ensures result == (a < b ? -1 : (a > b ? 1 : 0))     [C03 C08 C09]
 
+// Release segments are compared position by position, a missing segment counting as 0 (PEP 440).
+//@ spec pad(x []int, i int) int = i < len(x) ? x[i] : 0
+
 //@ func compareReleaseVersions
 //@   comparator a ~ b                                     [C01]
+//@   ensures first-difference: forall k int :: 0 <= k && (forall j int :: 0 <= j && j < k ==> pad(a, j) == pad(b, j)) && pad(a, k) != pad(b, k) ==> result == (pad(a, k) < pad(b, k) ? -1 : 1)   [C03 C09]
+//@   ensures all-equal: (forall j int :: 0 <= j ==> pad(a, j) == pad(b, j)) ==> result == 0   [C03 C09]
+
+//@ func normalizePrereleaseType
+//@   ensures range: 0 <= result && result <= 3     [C09]
+//@   ensures a: strings.ToLower(preType) == "a" || strings.ToLower(preType) == "alpha" ==> result == 1     [C09]
+//@   ensures b: strings.ToLower(preType) == "b" || strings.ToLower(preType) == "beta" ==> result == 2      [C09]
+//@   ensures rc: strings.ToLower(preType) == "c" || strings.ToLower(preType) == "rc" ==> result == 3       [C09]
 
 //@ func comparePrereleases
 //@   comparator (aPre, aNum) ~ (bPre, bNum)               [C01]
+//@   ensures none: aPre == "" && bPre == "" ==> result == 0                                               [C09]
+//@   ensures final-wins: aPre == "" && bPre != "" ==> result == 1                                         [C09]
+//@   ensures pre-loses: aPre != "" && bPre == "" ==> result == -1                                         [C09]
+//@   ensures phase: aPre != "" && bPre != "" && normalizePrereleaseType(aPre) != normalizePrereleaseType(bPre) ==> result == (normalizePrereleaseType(aPre) < normalizePrereleaseType(bPre) ? -1 : 1)   [C09]
+//@   ensures number: aPre != "" && bPre != "" && normalizePrereleaseType(aPre) == normalizePrereleaseType(bPre) ==> result == (aNum < bNum ? -1 : (aNum > bNum ? 1 : 0))   [C09]
 
 //@ func comparePostReleases
 //@   comparator a ~ b                                     [C01]
+//@   ensures absent-is-lowest: a >= -1 && b >= -1 ==> result == (a < b ? -1 : (a > b ? 1 : 0))           [C09]
 
 //@ func compareDevReleases
 //@   comparator a ~ b                                     [C01]
+//@   ensures absent-is-highest: a >= -1 && b >= -1 ==> result == (a == b ? 0 : ((a == -1 || (b != -1 && a > b)) ? 1 : -1))   [C09]
+
+// PEP 440 ordering within one release: X.devN (no pre, no post) < aN < bN < rcN < X (final) < X.postN, and
+// a .devN of any phase sorts immediately before that phase; -1 encodes "absent" for post and dev.
+//@ spec preRank(v *Version) int = v.prerelease == "" ? ((v.postrelease == -1 && v.dev != -1) ? -1 : 4) : normalizePrereleaseType(v.prerelease)
+//@ spec wfPhase(v *Version) bool = v.postrelease >= -1 && v.dev >= -1
+//@ spec sameRelease(v *Version, o *Version) bool = v.epoch == o.epoch && compareReleaseVersions(v.release, o.release) == 0
 
 //@ func (*Version).Compare
 //@   comparator v ~ other                                 [C01]
+//@   ensures epoch: v.epoch != other.epoch ==> result == (v.epoch < other.epoch ? -1 : 1)                                             [C03 C09]
+//@   ensures release: v.epoch == other.epoch && compareReleaseVersions(v.release, other.release) != 0 ==> result == compareReleaseVersions(v.release, other.release)   [C03 C09]
+//@   ensures phase: wfPhase(v) && wfPhase(other) && sameRelease(v, other) && preRank(v) != preRank(other) ==> result == (preRank(v) < preRank(other) ? -1 : 1)        [C03 C09]
+//@   ensures pre-number: wfPhase(v) && wfPhase(other) && sameRelease(v, other) && preRank(v) == preRank(other) && v.prerelease != "" && v.preNumber != other.preNumber ==> result == (v.preNumber < other.preNumber ? -1 : 1)   [C09]
+//@   ensures post: wfPhase(v) && wfPhase(other) && sameRelease(v, other) && preRank(v) == preRank(other) && (v.prerelease == "" || v.preNumber == other.preNumber) && v.postrelease != other.postrelease ==> result == (v.postrelease < other.postrelease ? -1 : 1)   [C03 C09]
+//@   ensures dev: wfPhase(v) && wfPhase(other) && sameRelease(v, other) && preRank(v) == preRank(other) && (v.prerelease == "" || v.preNumber == other.preNumber) && v.postrelease == other.postrelease && v.dev != other.dev ==> result == ((v.dev == -1 || (other.dev != -1 && v.dev > other.dev)) ? 1 : -1)   [C09]
+//@   ensures local-after-public: wfPhase(v) && wfPhase(other) && sameRelease(v, other) && preRank(v) == preRank(other) && (v.prerelease == "" || v.preNumber == other.preNumber) && v.postrelease == other.postrelease && v.dev == other.dev && v.local != "" && other.local == "" ==> result == 1   [C09]   // known finding: the local label is ignored
 
 // ---- constructors: value xor error (C06); the fact is structural (untagged) because callers rely on it
 
